@@ -117,7 +117,7 @@ module.exports = mk({
     }
   },
   bound: (tier) => ({ notmodified_bodies: Object.keys(NOTMOD_BODIES).length, byte_variants: Object.keys(BYTE_VARIANTS).length, context_deviations_k: tier === 'thorough' ? 2 : 1 }),
-  rule: 'leaf = program of families A,B,C, or (not-modified body x byte-level variant x config), or (modified body x byte variant x config); every leaf goes through the native call AND through main.js NonCacheRewriter/CacheRewriter; non-trivial = the call returned a result with a status; distinct by (text, config)',
+  rule: 'leaf = program of families A,B,C, or (not-modified body x byte-level variant x config), or (modified body x byte variant x config), bodies with map references of every kind, families S and M under three verbosities; every leaf goes through the native call AND through main.js NonCacheRewriter/CacheRewriter; non-trivial = the call returned a result with a status; distinct by (text, config)',
   explanation: 'explicit enumeration; oracle = status vs content consistency (hooks counted by annotated erasure), requirement function for the modified direction, byte comparison through the real main.js wrappers',
   assumptions: ['main.js is the real file from the repository; the wasm class it loads is a stand-in answering from the native service (bridge.js)']
 })
